@@ -1,13 +1,18 @@
 import GolibsVerif.Lemmas.Mixer
 /-
 C18 — Iterator mixer is a faithful two-way merge.  Property theorems only.
+
+`g1 g2` mark inputs whose tail vanishes (HasNext() = true once more after the last element, then
+Next() = (0, false): the imparity the Iterator contract allows).  Every theorem about `Mx.init`
+holds for arbitrary `g1 g2`; `vanishing_tail_irrelevant` says the outputs do not depend on them.
 -/
 namespace C18
 open Mixer
 
-theorem init_inv (sf : Nat → Nat → Bool) (l1 l2 : List Nat) (r1 r2 : Bool) :
-    (Mx.init l1 l2 r1 r2).Inv sf ∧ (Mx.init l1 l2 r1 r2).abs = { p1 := l1, p2 := l2, a1 := l1, a2 := l2 } :=
-  Mixer.init_inv sf l1 l2 r1 r2
+theorem init_inv (sf : Nat → Nat → Bool) (l1 l2 : List Nat) (r1 r2 g1 g2 : Bool) :
+    (Mx.init l1 l2 r1 r2 g1 g2).Inv sf ∧
+    (Mx.init l1 l2 r1 r2 g1 g2).abs = { p1 := l1, p2 := l2, a1 := l1, a2 := l2 } :=
+  Mixer.init_inv sf l1 l2 r1 r2 g1 g2
 
 /-- One call of HasNext / Next / Reset (both sources resettable): same output as the Spec,
 abstraction commutes, cached-state invariant kept. -/
@@ -20,10 +25,11 @@ theorem step_refines (sf : Nat → Nat → Bool) (m : Mx) (op : Op) (h : m.Inv s
 
 /-- C18.pattern_independent: under ANY pattern of HasNext/Next/Reset calls the mixer's answers
 are those of the reference (HasNext ⇔ merge non-empty and changes nothing; Next = head of merge). -/
-theorem pattern_independent (sf : Nat → Nat → Bool) (l1 l2 : List Nat) (ops : List Op) :
-    (runI sf (Mx.init l1 l2) ops).2 = (runS sf { p1 := l1, p2 := l2, a1 := l1, a2 := l2 } ops).2 := by
-  have hi := Mixer.init_inv sf l1 l2 true true
-  have h := (run_refines sf ops (Mx.init l1 l2) hi.1 ⟨rfl, rfl⟩).1
+theorem pattern_independent (sf : Nat → Nat → Bool) (l1 l2 : List Nat) (g1 g2 : Bool) (ops : List Op) :
+    (runI sf (Mx.init l1 l2 true true g1 g2) ops).2 =
+      (runS sf { p1 := l1, p2 := l2, a1 := l1, a2 := l2 } ops).2 := by
+  have hi := Mixer.init_inv sf l1 l2 true true g1 g2
+  have h := (run_refines sf ops (Mx.init l1 l2 true true g1 g2) hi.1 ⟨rfl, rfl⟩).1
   rw [hi.2] at h
   exact h
 
@@ -58,12 +64,13 @@ theorem hasNext_agrees_with_next (sf : Nat → Nat → Bool) (m : Mx) (h : m.Inv
   · simp [h']
   · simp [h']
 
-/-- C18.output_eq_merge: draining a fresh mixer yields exactly the reference merge, any selector. -/
-theorem output_eq_merge (sf : Nat → Nat → Bool) (l1 l2 : List Nat) (fuel : Nat)
+/-- C18.output_eq_merge: draining a fresh mixer yields exactly the reference merge, any selector,
+resettable or not, vanishing tails or not. -/
+theorem output_eq_merge (sf : Nat → Nat → Bool) (l1 l2 : List Nat) (r1 r2 g1 g2 : Bool) (fuel : Nat)
     (hf : fuel ≥ l1.length + l2.length) :
-    drain sf fuel (Mx.init l1 l2) = merge sf l1 l2 := by
-  have hi := Mixer.init_inv sf l1 l2 true true
-  have h := drain_eq_merge sf fuel (Mx.init l1 l2) hi.1 (by rw [hi.2]; exact hf)
+    drain sf fuel (Mx.init l1 l2 r1 r2 g1 g2) = merge sf l1 l2 := by
+  have hi := Mixer.init_inv sf l1 l2 r1 r2 g1 g2
+  have h := drain_eq_merge sf fuel (Mx.init l1 l2 r1 r2 g1 g2) hi.1 (by rw [hi.2]; exact hf)
   rw [hi.2] at h
   exact h
 
@@ -71,6 +78,13 @@ theorem output_eq_merge (sf : Nat → Nat → Bool) (l1 l2 : List Nat) (fuel : N
 theorem is_interleaving (sf : Nat → Nat → Bool) (l1 l2 : List Nat) :
     Interleave l1 l2 (merge sf l1 l2) :=
   interleave_merge sf l1 l2
+
+/-- `is_interleaving` for what the mixer itself emits, vanishing tails or not -/
+theorem drain_is_interleaving (sf : Nat → Nat → Bool) (l1 l2 : List Nat) (r1 r2 g1 g2 : Bool)
+    (fuel : Nat) (hf : fuel ≥ l1.length + l2.length) :
+    Interleave l1 l2 (drain sf fuel (Mx.init l1 l2 r1 r2 g1 g2)) := by
+  rw [output_eq_merge sf l1 l2 r1 r2 g1 g2 fuel hf]
+  exact is_interleaving sf l1 l2
 
 theorem interleave_facts {l1 l2 l : List Nat} (h : Interleave l1 l2 l) :
     l.length = l1.length + l2.length ∧ l1.Sublist l ∧ l2.Sublist l ∧ l.Perm (l1 ++ l2) :=
@@ -84,15 +98,25 @@ theorem sorted_merge (sf : Nat → Nat → Bool)
     (merge sf l1 l2).Pairwise (fun a b => sf a b = true) :=
   pairwise_merge sf total trans l1 l2 h1 h2
 
+/-- `sorted_merge` for what the mixer itself emits, vanishing tails or not -/
+theorem drain_sorted (sf : Nat → Nat → Bool)
+    (total : ∀ a b, sf a b = true ∨ sf b a = true)
+    (trans : ∀ a b c, sf a b = true → sf b c = true → sf a c = true)
+    (l1 l2 : List Nat) (h1 : l1.Pairwise (fun a b => sf a b = true)) (h2 : l2.Pairwise (fun a b => sf a b = true))
+    (r1 r2 g1 g2 : Bool) (fuel : Nat) (hf : fuel ≥ l1.length + l2.length) :
+    (drain sf fuel (Mx.init l1 l2 r1 r2 g1 g2)).Pairwise (fun a b => sf a b = true) := by
+  rw [output_eq_merge sf l1 l2 r1 r2 g1 g2 fuel hf]
+  exact sorted_merge sf total trans l1 l2 h1 h2
+
 /-- C18.reset_restarts: after any call pattern, Reset (resettable inputs) restarts from the beginning. -/
-theorem reset_restarts (sf : Nat → Nat → Bool) (l1 l2 : List Nat) (ops : List Op) :
-    let m := (runI sf (Mx.init l1 l2) ops).1
+theorem reset_restarts (sf : Nat → Nat → Bool) (l1 l2 : List Nat) (g1 g2 : Bool) (ops : List Op) :
+    let m := (runI sf (Mx.init l1 l2 true true g1 g2) ops).1
     (m.reset).2 = .ok ∧ (m.reset).1.abs = { p1 := l1, p2 := l2, a1 := l1, a2 := l2 } ∧ (m.reset).1.st = 0 := by
-  have hi := Mixer.init_inv sf l1 l2 true true
-  obtain ⟨_, hb, _, hd⟩ := run_refines sf ops (Mx.init l1 l2) hi.1 ⟨rfl, rfl⟩
-  have ha := runS_all sf ops (Mx.init l1 l2).abs
+  have hi := Mixer.init_inv sf l1 l2 true true g1 g2
+  obtain ⟨_, hb, _, hd⟩ := run_refines sf ops (Mx.init l1 l2 true true g1 g2) hi.1 ⟨rfl, rfl⟩
+  have ha := runS_all sf ops (Mx.init l1 l2 true true g1 g2).abs
   rw [← hb, hi.2] at ha
-  obtain ⟨a, b, _, d, _⟩ := reset_refines sf (runI sf (Mx.init l1 l2) ops).1 hd
+  obtain ⟨a, b, _, d, _⟩ := reset_refines sf (runI sf (Mx.init l1 l2 true true g1 g2) ops).1 hd
   refine ⟨a, ?_, d⟩
   simp only at ha
   rw [b]
@@ -110,7 +134,30 @@ theorem emits_first_iff (sf : Nat → Nat → Bool) (x : Nat) (xs ys : List Nat)
     | true => left; simp [merge_cons_cons, hsf]
     | false => right; exact ⟨y, ys', rfl, hsf, by simp [merge_cons_cons, hsf]⟩
 
+/-- C18.vanishing_tail_irrelevant: the outputs of EVERY call pattern are the same with and without
+vanishing tails, also for non-resettable sources (where Reset fails half-way). -/
+theorem vanishing_tail_irrelevant (sf : Nat → Nat → Bool) (l1 l2 : List Nat) (r1 r2 g1 g2 : Bool)
+    (ops : List Op) :
+    (runI sf (Mx.init l1 l2 r1 r2 g1 g2) ops).2 = (runI sf (Mx.init l1 l2 r1 r2) ops).2 :=
+  (run_sim sf ops _ _ (init_sim l1 l2 r1 r2 g1 g2 false false)).1
+
 /-- non-vacuity: tie handling on a concrete case -/
 example : drain (fun a b => a ≤ b) 10 (Mx.init [1, 2, 2] [2, 3]) = [1, 2, 2, 2, 3] := by decide
+
+/-- a concrete vanishing tail: input 1 answers HasNext() = true after its last element; the mixer
+takes `load` from Next()'s ok and goes on with input 2 -/
+example : (runI (fun a b => a ≤ b) (Mx.init [1, 2] [1, 3] true true true false)
+      [.next, .next, .next, .next, .hasNext, .next]).2 =
+    [.nx 1 true, .nx 1 true, .nx 2 true, .nx 3 true, .b false, .nx 0 false] := by decide
+
+/-- the phantom HasNext really is consumed (the states differ, the outputs do not), and Reset re-arms it -/
+example : let m := (runI (fun a b => a ≤ b) (Mx.init [1] [] true true true true) [.next, .hasNext]).1
+    (m.s1.ghostLeft, m.s2.ghostLeft, m.st, m.reset.1.s1.ghostLeft) = (false, false, 3, true) := by decide
+
+/-- non-resettable first input with a vanishing tail: Reset fails early, the stale state 1 emits the
+cleared look-ahead — with and without the ghost alike -/
+example : (runI (fun a b => a ≤ b) (Mx.init [4] [5] false true true true)
+      [.hasNext, .reset, .next, .next, .next, .hasNext]).2 =
+    [.b true, .rs .unimplemented, .nx 0 true, .nx 5 true, .nx 0 false, .b false] := by decide
 
 end C18
